@@ -1,6 +1,78 @@
 package main
 
-func runDistilCase(c J, ow *obsWriter)    { die(2, "distil mode not built yet") }
-func runLevelsCase(c J, ow *obsWriter)    { die(2, "levels mode not built yet") }
+import (
+	"encoding/json"
+	"fmt"
+
+	satisfaction_levels "github.com/Azbesciak/RealDecisionMaker/lib/logic/limited-rationality/satisfaction-levels"
+	"github.com/Azbesciak/RealDecisionMaker/lib/model"
+)
+
+// levels mode: drive the real level iterators that main.go wires to the two threshold heuristics
+// (increasingSatisfactionLevels -> aspect elimination, decreasingSatisfactionLevels -> satisfaction)
+// through their exported protocol Find -> Initialize -> HasNext/Next and record the whole series.
+func runLevelsCase(c J, ow *obsWriter) {
+	unit := unitOf(c)
+	spec := realise(c["lv"], "", "", unit).(map[string]interface{})
+	var crit model.Criteria
+	var alts []model.AlternativeWithCriteria
+	b, _ := json.Marshal(spec["criteria"])
+	if err := json.Unmarshal(b, &crit); err != nil {
+		die(2, "levels case %v: criteria: %v", c["id"], err)
+	}
+	b, _ = json.Marshal(spec["alternatives"])
+	if err := json.Unmarshal(b, &alts); err != nil {
+		die(2, "levels case %v: alternatives: %v", c["id"], err)
+	}
+	ncons := len(alts)
+	if k, ok := spec["considered"].(float64); ok {
+		ncons = int(k) // cases write it as {"int": k}, which realise leaves unscaled
+	}
+	dmp := &model.DecisionMakingParams{
+		Criteria:                  crit,
+		ConsideredAlternatives:    append([]model.AlternativeWithCriteria{}, alts[:ncons]...),
+		NotConsideredAlternatives: append([]model.AlternativeWithCriteria{}, alts[ncons:]...),
+	}
+	sources := increasingSatisfactionLevels
+	if spec["dir"] == "dec" {
+		sources = decreasingSatisfactionLevels
+	}
+	p := &projector{unit: unit, mode: str(c, "num", "exact")}
+	obs := J{"case": c}
+	series := []interface{}{}
+	capped := false
+	var perr interface{}
+	func() {
+		defer func() { perr = recover() }()
+		it := satisfaction_levels.Find(spec["function"].(string), spec["params"], sources)
+		it.Initialize(dmp)
+		for it.HasNext() {
+			if len(series) >= 2000 {
+				capped = true
+				break
+			}
+			w := it.Next()
+			m := J{}
+			for k, v := range w {
+				m[k] = v
+			}
+			series = append(series, m)
+		}
+	}()
+	if perr != nil {
+		obs["status"] = 400
+		obs["error"] = fmt.Sprint(perr)
+		obs["series"] = []interface{}{}
+	} else {
+		obs["status"] = 200
+		obs["series"] = p.proj(interface{}(series), "series")
+	}
+	obs["capped"] = capped
+	obs["inexact"] = p.inexact
+	obs["overflow"] = p.overflow
+	ow.emit(obs)
+}
+
+func runDistilCase(c J, ow *obsWriter)       { die(2, "distil mode not built yet") }
 func runHistories(cases []J, ow *obsWriter)  { die(2, "hist mode not built yet") }
 func runConcurrent(cases []J, ow *obsWriter) { die(2, "conc mode not built yet") }
